@@ -321,4 +321,15 @@ func init() {
 		HarnessSpec{Name: "VerifH_serveHTTP_intparam", Covers: []string{"zero-capture"}})
 	ext("C11", "register / drop / register-again of a connection under an adversarial map iteration order (one range statement over a map, chosen by fork, reversed); every route incl. additional bindings of the re-registered methods must dispatch; after every step of every history the path parameters of each live route are applied to a request message built from EACH live backend's own descriptors",
 		HarnessSpec{Name: "VerifH_registry_maporder", Covers: []string{"reregistered"}})
+
+	uni := "unicode: 3 rule sets with 2- and 3-byte UTF-8 letters (é, 日, 本) as literals, captures and around ':' verbs; paths = concrete unicode prefix (6 shapes) + 0..3 symbolic ASCII bytes + concrete unicode suffix (4 shapes)"
+	ext("C01", uni, HarnessSpec{Name: "VerifH_match_unicode", Covers: []string{"dispatched", "captured", "not-dispatched", "unicode-suffix"}})
+	ext("C02", uni, HarnessSpec{Name: "VerifH_match_unicode", Covers: []string{"dispatched", "no-rule-matches", "literal-won", "unicode-suffix"}})
+	for _, id := range []string{"C01", "C02"} {
+		for i, o := range props[id].Outside {
+			if o == "bytes >= 0x80 (unicode letters)" {
+				props[id].Outside[i] = "symbolic bytes >= 0x80 (non-ASCII text is concrete: the letters é, 日, 本)"
+			}
+		}
+	}
 }
